@@ -269,25 +269,29 @@ func extractTermsAux(ctx *Context, x interface{}, terms StringSet, depth int) {
 
 func (s *IndexedState) Add(ctx *Context, id string, x Map) (string, error) {
 	Log(DEBUG, ctx, "IndexedState.Add", "state", s.Name, "factx", x, "id", id)
+	// The lock is held until the fact is stored, too: memory and
+	// storage have to see concurrent writers of an id in the same
+	// order.
 	s.slock(ctx, false)
 	s.uncacheRule(id)
 	id, err := s.add(ctx, id, x)
-	// Persist what we hold in memory: the prepared fact, which has
-	// the expiration time that was computed from any 'ttl'.
-	fact := s.IdToFact[id]
-	s.sunlock(ctx, false)
-
 	if nil != err {
+		s.sunlock(ctx, false)
 		return "", err
 	}
 
+	// Persist what we hold in memory: the prepared fact, which has
+	// the expiration time that was computed from any 'ttl'.
+	fact := s.IdToFact[id]
 	js, err := json.Marshal(&fact)
 	if err != nil {
+		s.sunlock(ctx, false)
 		return "", err
 	}
 	d := Pair{[]byte(id), js}
 
 	err = s.Store.Add(ctx, s.Name, &d)
+	s.sunlock(ctx, false)
 	if err != nil {
 		Log(WARN, ctx, "IndexedState.Add", "state", s.Name, "factjs", string(js), "id", id, "error", err)
 		return "", err
